@@ -92,7 +92,7 @@ func c11(c *an.Check) {
 		okm := false
 		if f != nil {
 			kt, dt := false, false
-			for _, b := range f.Blocks {
+			for _, b := range an.ScanBlocks(f) {
 				for _, ins := range b.Instrs {
 					st, ok := ins.(*ssa.Store)
 					if !ok {
@@ -160,7 +160,7 @@ func c11(c *an.Check) {
 		if fn == nil {
 			return ""
 		}
-		for _, b := range fn.Blocks {
+		for _, b := range an.ScanBlocks(fn) {
 			for _, ins := range b.Instrs {
 				if st, ok := ins.(*ssa.Store); ok {
 					if f := an.FieldOfAddr(st.Addr); f != nil && f.Name() == "Type" {
@@ -178,7 +178,7 @@ func c11(c *an.Check) {
 		if fn == nil {
 			return out
 		}
-		for _, b := range fn.Blocks {
+		for _, b := range an.ScanBlocks(fn) {
 			for _, ins := range b.Instrs {
 				if bo, ok := ins.(*ssa.BinOp); ok {
 					for _, o := range []ssa.Value{bo.X, bo.Y} {
@@ -274,7 +274,7 @@ func ed25519PrivateKeyDecodeGates(c *an.Check) *ssa.Function {
 			}}),
 		{Name: "the key holds exactly 64 bytes", Holds: func(s *an.State, at ssa.Instruction) bool {
 			// stored key bytes: the parameter itself (len==64 path) or a fresh 64-byte copy
-			for _, b := range usk.Blocks {
+			for _, b := range an.ScanBlocks(usk) {
 				for _, ins := range b.Instrs {
 					if st, ok := ins.(*ssa.Store); ok {
 						if f := an.FieldOfAddr(st.Addr); f != nil && f.Name() == "k" {
@@ -297,7 +297,7 @@ func ed25519PrivateKeyDecodeGates(c *an.Check) *ssa.Function {
 	// the 96-byte form keeps the first 64 bytes (seed‖public key), not some other window
 	okCopy, nCopy := false, 0
 	if usk != nil {
-		for _, b := range usk.Blocks {
+		for _, b := range an.ScanBlocks(usk) {
 			for _, ins := range b.Instrs {
 				if cc, ok := ins.(*ssa.Call); ok && an.BuiltinName(cc) == "copy" {
 					nCopy++
@@ -320,7 +320,7 @@ func privateKeyRawIsCopy(c *an.Check) {
 	kF := fv(c, "crypto", "Ed25519PrivateKey", "k")
 	ok, why := raw != nil && kF != nil, "unresolved anchor"
 	if ok {
-		for _, b := range raw.Blocks {
+		for _, b := range an.ScanBlocks(raw) {
 			if ret, isRet := b.Instrs[len(b.Instrs)-1].(*ssa.Return); isRet {
 				for r := range an.AliasRoots(ret.Results[0]) {
 					if an.IsFieldLoad(r, kF) {
@@ -399,7 +399,7 @@ func decodeIntoZeroMessage(c *an.Check, construct string, fns []*ssa.Function) i
 		if fn == nil {
 			continue
 		}
-		for _, b := range fn.Blocks {
+		for _, b := range an.ScanBlocks(fn) {
 			for _, ins := range b.Instrs {
 				call, ok := ins.(*ssa.Call)
 				if !ok || call.Call.IsInvoke() {
@@ -414,7 +414,7 @@ func decodeIntoZeroMessage(c *an.Check, construct string, fns []*ssa.Function) i
 					continue
 				}
 				n++
-				for _, ob := range fn.Blocks {
+				for _, ob := range an.ScanBlocks(fn) {
 					for _, oi := range ob.Instrs {
 						st, isSt := oi.(*ssa.Store)
 						if !isSt {
